@@ -429,6 +429,73 @@ fn huge_chunk_case(rep: &Report, idx: usize, seed: u64) -> Option<String> {
     res.err()
 }
 
+/// AddressSanitizer slice: compress and clone through the CLI built with
+/// -Zsanitizer=address, every codec family at several levels (all levels in the thorough
+/// tier), sources whose chunks are really stored compressed plus incompressible ones, to a
+/// new file and in place over an edited older version. Oracle: no sanitizer report, exit 0,
+/// output == source.
+fn asan_roundtrips(rep: &Report, seed: u64, tier: Tier) {
+    use super::asan;
+    asan::self_test(rep);
+    if !asan::available() {
+        rep.inconclusive("asan: sanitizer build of the CLI not available");
+        return;
+    }
+    let comps: Vec<crate::gen::Comp> = match tier {
+        Tier::Quick => {
+            use crate::gen::Comp::*;
+            vec![None, Brotli(1), Brotli(6), Brotli(11), Zstd(1), Zstd(3), Zstd(12), Zstd(19), Zstd(22), Lzma(1), Lzma(6), Lzma(9)]
+        }
+        Tier::Thorough => crate::gen::all_comps(),
+    };
+    let per = tier.pick(2, 4);
+    let n = comps.len() * per;
+    let dir = scn::case_dir("C01", 950_000);
+    let res = par_map(n, crate::util::ncpu(), |i| {
+        let mut rng = Rng::new(seed).fork(0x01a5 + i as u64);
+        let comp = comps[i / per];
+        let cfg = match rng.below(3) {
+            0 => r1::Cfg::fixed(rng.urange(3000, 20_000)),
+            1 => r1::Cfg { algo: r1::Algo::RollSum, window: rng.urange(8, 64), min: 1024, max: 32_768, bits: rng.urange(10, 13) as u32 },
+            _ => r1::Cfg { algo: r1::Algo::BuzHash, window: rng.urange(8, 32), min: 2048, max: 16_384, bits: rng.urange(10, 13) as u32 },
+        };
+        let class = *rng.pick(&[crate::gen::SrcClass::LowEntropy, crate::gen::SrcClass::ZeroRuns, crate::gen::SrcClass::Random, crate::gen::SrcClass::BlockRepetitive, crate::gen::SrcClass::MixedEntropy]);
+        let len = rng.urange(20_000, 150_000);
+        let mut source = crate::gen::gen_source(&mut rng, class, len);
+        if rng.chance(1, 3) {
+            let extra = rng.urange(1, 30_000);
+            source.extend(rng.bytes(extra)); // mixed entropy: some chunks raw, some compressed
+        }
+        let mut spec = scn::CompressSpec::new(cfg, comp, *rng.pick(&[4usize, 16, 64]));
+        if rng.chance(1, 3) {
+            spec.stdin = Some(rng.next_u64());
+        }
+        if rng.chance(1, 3) {
+            spec.buffered = Some(rng.urange(1, 9));
+        }
+        let prior = if rng.chance(1, 3) { Some(crate::gen::apply_edit(&mut rng, &source, crate::gen::Edit::Swap)) } else { None };
+        let r = asan::roundtrip_case(&dir, &format!("r{}", i), &source, &spec, prior.as_deref());
+        (spec.describe(), comp, r)
+    });
+    for (what, comp, r) in res {
+        rep.eval();
+        rep.eval();
+        match r {
+            Ok(()) => {
+                rep.count("asan.roundtrips_clean", 1);
+                rep.seen("asan.codecs", comp.describe());
+            }
+            Err(why) if why.starts_with("inconclusive") => rep.inconclusive("asan watchdog"),
+            Err(why) => rep.violation(
+                &format!("c01/asan/{}/{}", comp.family(), why.split(|c| c == ':' || c == '(').next().unwrap_or("").trim()),
+                json!({"why": why, "case": what}),
+                json!({"engine": "asan", "seed": seed, "tier": tier.name()}),
+            ),
+        }
+    }
+    scn::cleanup(&dir, rep.violations() > 0);
+}
+
 pub fn run(tier: Tier, seed: u64) -> i32 {
     let rep = Report::new("C01", "exploration", tier, seed);
     let n = tier.pick(600, 7000);
@@ -502,6 +569,7 @@ pub fn run(tier: Tier, seed: u64) -> i32 {
         }
     }
     stored_eq_source_corner(&rep, seed, tier);
+    asan_roundtrips(&rep, seed, tier);
     let nh = tier.pick(12, 96);
     // few at a time: each case holds tens of MiB
     let res = par_map(nh, 6, |i| (i, huge_chunk_case(&rep, i, seed)));
@@ -547,6 +615,12 @@ pub fn replay(v: &Value) -> i32 {
                 0
             }
         };
+    }
+    if r["engine"] == "asan" {
+        let tier = if r["tier"] == "thorough" { Tier::Thorough } else { Tier::Quick };
+        let rep = Report::new("C01", "exploration", tier, r["seed"].as_u64().unwrap_or(1));
+        asan_roundtrips(&rep, r["seed"].as_u64().unwrap_or(1), tier);
+        return if rep.violations() > 0 { 1 } else { 0 };
     }
     if r["engine"] == "corner" {
         let rep = Report::new("C01", "exploration", Tier::Thorough, r["seed"].as_u64().unwrap_or(1));
